@@ -303,7 +303,7 @@ def configs(tier, sd):
     out = []
     n = 36 if quick else 300
     for i in range(n):
-        out.append(wg.random_spec(rng, 'c%03d' % i, nmin=3, nmax=6 if quick else 7, external=(i % 4 == 3),
+        out.append(wg.random_spec(rng, 'c%03d' % i, nmin=3, nmax=6 if quick else 7, external=(i % 3 == 2),
                                   decoy=(i % 12 == 8), struct_value_form=(i % 12 == 5)))
     return out, rng
 
